@@ -79,6 +79,22 @@ pub fn dispatch(ctx: &Ctx, rep: &mut Report) {
                 crate::onris::c08::round0(ctx, rep);
             }
         },
+        "C09" => {
+            if fm {
+                crate::onfm::c09::run(ctx, rep);
+            }
+            if ris {
+                crate::onris::c09::run(ctx, rep);
+            }
+        },
+        "C10" => {
+            if fm {
+                crate::onfm::c10::run(ctx, rep);
+            }
+            if ris {
+                crate::onris::c10::run(ctx, rep);
+            }
+        },
         other => {
             eprintln!("unknown check {other}");
             std::process::exit(3);
